@@ -886,6 +886,14 @@ example : (writeFile .over [((['d'], ['f']), 1)] (['d'], ['f']) 2).map (lookupF 
     = some (some 2) := by decide
 
 
+-- a bucket requested by two non-adjacent entries of the save list (`image: [fits]`, `pixel: [npy]`,
+-- `image: [npy]`): the model is per (bucket, extension, run) combination, so all three are reported for
+-- each run whatever the order of the entries (`observation_complete` / `direct_complete` only need the
+-- combinations to be pairwise different)
+example : (saveRun ['d'] ([] : Files Nat) (opsObservation (fun r _ => r)
+      [(.image, ['f','i','t','s']), (.pixel, ['n','p','y']), (.image, ['n','p','y'])] 2)).map (·.2.length)
+    = some 6 := by decide
+
 -- counter-witness for the code before the repair `C19-jpeg-extension`: `"jpeg"` was written with the
 -- extension `jpg`, so a save list asking for both formats names one file twice and the refusing
 -- writer aborts the observation
